@@ -204,7 +204,7 @@ func init() {
 				cases = append(cases, genC11(r))
 			}
 		}
-		rep.Rule = "seeded programs from the size-clean pool in which immediates, displacements, data lanes, RESB/ALIGNB arguments and other EQU bodies are expressions over 1-5 chained EQU names (depth <= 4, names reused after appearing inside products and differences), " +
+		rep.Rule = "names for constants of the upper half of the unsigned 32-bit range (directly and as a product) in ALU, PUSH, displacement, DD and arithmetic positions (a third of the programs); seeded programs from the size-clean pool in which immediates, displacements, data lanes, RESB/ALIGNB arguments and other EQU bodies are expressions over 1-5 chained EQU names (depth <= 4, names reused after appearing inside products and differences), " +
 			"versus the same program with every name textually replaced by its parenthesised defining expression and the EQU lines removed; plus EQU-only prefixes that must emit nothing; oracle: byte-identical outputs; distinct = (mode, origin, number of EQUs) cells"
 		outs := RunCases(env, cases)
 		for i := 0; i < len(cases) && len(rep.Samples) < 3; i += len(cases)/3 + 1 {
